@@ -40,6 +40,16 @@ class Batch:
             return a
         return {"args": [d(a) for a in self.args], "kwargs": {k: d(v) for k, v in self.kwargs.items()}}
 
+    @classmethod
+    def from_describe(cls, d: dict) -> "Batch":
+        """exact inverse of `describe()` (also after a JSON round trip): tensors come back with their dtype and shape,
+        python scalars / strings / (nested) lists as they are."""
+        def u(a):
+            if isinstance(a, dict) and {"shape", "dtype", "data"} <= set(a):
+                return torch.tensor(a["data"], dtype=getattr(torch, a["dtype"])).reshape(tuple(a["shape"]))
+            return a
+        return cls(tuple(u(a) for a in d["args"]), {k: u(v) for k, v in (d.get("kwargs") or {}).items()})
+
 
 @dataclass
 class Spec:
@@ -57,6 +67,7 @@ class Spec:
     sizes: tuple = (1, 2, 3, 7)
     per_sample: bool = False        # compute() returns one value per sample (ordered)
     count_states: tuple = ()        # registered states that are sample counts/sums (C19)
+    scalar_expand: dict | None = None   # positional arg that may be a python scalar (or absent = 1.0) -> arg whose shape it broadcasts to
 
     def make(self, cfg):
         return self.ctor(**cfg)
@@ -66,6 +77,22 @@ def cat_batches(spec: Spec, bs: list[Batch]) -> Batch | None:
     """one batch holding all samples of `bs` in order (None when not concatenable)."""
     if spec.cat is None or not bs:
         return None
+    if spec.scalar_expand:
+        # a scalar weight (or an omitted one, = 1.0) that differs between the batches is spelled out per sample, which is
+        # what "the same data in one call" means for the functional form
+        for idx, ref in spec.scalar_expand.items():
+            vals = [(b.args[idx] if len(b.args) > idx else 1.0) for b in bs]
+            if all(isinstance(v, torch.Tensor) for v in vals):
+                continue
+            if all(not isinstance(v, torch.Tensor) for v in vals) and len({float(v) for v in vals}) == 1 and len({len(b.args) for b in bs}) == 1:
+                continue
+            nbs = []
+            for b, v in zip(bs, vals):
+                r = b.args[ref]
+                w = v if isinstance(v, torch.Tensor) else torch.full(r.shape, float(v), dtype=torch.float32)
+                a = list(b.args[:idx]) + [w]
+                nbs.append(Batch(tuple(a), dict(b.kwargs)))
+            bs = nbs
     b0 = bs[0]
     args = []
     for i, a in enumerate(b0.args):
@@ -237,6 +264,8 @@ def g_ctr(rng, cfg, n):
     r = _v(rng, cfg)
     if r < 0.4:
         return Batch((x, ft(rng.grid(t * n, W4), shape=shape)))
+    if r < 0.6:
+        return Batch((x, float(rng.choice(W4))))      # a scalar weight that differs from update to update
     return Batch((x,))
 
 
@@ -247,6 +276,9 @@ def g_wc(rng, cfg, n):
     y = ft([rng.choice([0, 1]) for _ in range(t * n)], shape=shape)
     if _v(rng, cfg) < 0.4:
         return Batch((x, y, ft(rng.grid(t * n, W4), shape=shape)))
+    if _v(rng, cfg) < 0.6:
+        w = rng.choice(W4)
+        return Batch((x, y, int(w) if w.denominator == 1 and rng.random() < 0.5 else float(w)))   # scalar weight (float or int), per update
     return Batch((x, y))
 
 
@@ -426,8 +458,8 @@ def _specs() -> list[Spec]:
              g_retrieval, kind="retrieval", cat=c012, family="rank", sizes=(1, 2, 3, 5), functional=_f_retrieval(F.retrieval_precision)),
         Spec("RetrievalRecall", M.RetrievalRecall, [{"k": 2}, {"k": 3, "limit_k_to_size": True}, {"k": 2, "num_queries": 2, "avg": "macro"}, {"k": None}],
              g_retrieval, kind="retrieval", cat=c012, family="rank", sizes=(1, 2, 3, 5), functional=_f_retrieval(F.retrieval_recall)),
-        Spec("ClickThroughRate", M.ClickThroughRate, [{}, {"num_tasks": 2}], g_ctr, cat={0: -1, 1: -1}, functional=_f(F.click_through_rate, "num_tasks"), model=None, family="rank", count_states=("click_total", "weight_total")),
-        Spec("WeightedCalibration", M.WeightedCalibration, [{}, {"num_tasks": 2}], g_wc, cat={0: -1, 1: -1, 2: -1}, functional=_f(F.weighted_calibration, "num_tasks"), model=None, family="rank"),
+        Spec("ClickThroughRate", M.ClickThroughRate, [{}, {"num_tasks": 2}], g_ctr, cat={0: -1, 1: -1}, functional=_f(F.click_through_rate, "num_tasks"), model=None, family="rank", count_states=("click_total", "weight_total"), scalar_expand={1: 0}),
+        Spec("WeightedCalibration", M.WeightedCalibration, [{}, {"num_tasks": 2}], g_wc, cat={0: -1, 1: -1, 2: -1}, functional=_f(F.weighted_calibration, "num_tasks"), model=None, family="rank", scalar_expand={2: 0}),
     ]
     # --- text / misc
     S += [
